@@ -157,6 +157,20 @@ CHECKS = {
             "Trusted: the jsonschema package (installed offline by setup_cmd into /verif/.deps) as the judge; format is an "
             "annotation. Three recorded findings (allOf integer/boolean, reserved extra key names, prefixItems presence).",
             "DESIGN.md §3 C15"),
+    "C13": ("bounded-exhaustive enumeration of types / data classes x views x inputs with the generated documents and the "
+            "produced values judged by an independent validator (jsonschema) and the schema structure compared with observed "
+            "parser behaviour",
+            "Types: JSON-expressible leaves, constrained types, shipped types, Literal, generics (depth 1 / 2), |, ^, & x the "
+            "atom alphabet plus directed inputs. Data classes: the 27-entry Field menu in 1- and 2-field classes of both bases "
+            "x 10 class option sets (addition, case_insensitive, modes) x {input, output}; nested / recursive / mutually "
+            "recursive programs with $defs. (a) every document is strict JSON and passes the Draft 2020-12 meta-schema; (b) "
+            "every produced value (JSON-encoded) validates against the output schema; (c) listed properties + x-aliases == "
+            "keys observed to feed a field, required == fields whose omission is observed to be an error, "
+            "additionalProperties == observed fate of an unknown key.",
+            "Trusted: the jsonschema package and the observation procedure of (c). Values outside the JSON-faithful domain "
+            "(non-finite numbers, Decimals beyond 15 digits, integers beyond 1e300) are counted and not judged. Five recorded "
+            "findings (allOf / oneOf vs sequential & / input-judging ^, Python bool-int equality).",
+            "DESIGN.md §3 C13"),
     "C16": ("explicit-state exploration (DFS with state dedup) of register/resolve histories on the real "
             "TypeRegistry against a cache-free reference model",
             "All histories of register/resolve operations up to depth 4 (quick) / 5 (thorough) over a menu of "
